@@ -26,6 +26,7 @@ const (
 	mkArr
 	mkMap
 	mkFn  // a host function of the data map (S: its name there), as a value: bound to a local, called through it
+	mkDec // a decimal literal with trailing zeros in its fraction (S: its text, "1.10"): only bound and read; its scale is part of the value ('v' + 1.10 is "v1.10")
 	mkBig // an integer literal with more significant digits than a 34-digit context keeps; only bound, read and compared
 )
 
@@ -55,6 +56,8 @@ func (v MV) String() string {
 		return strconv.FormatInt(v.N, 10)
 	case mkStr:
 		return strconv.Quote(v.S)
+	case mkDec:
+		return "num:" + v.S // as implString renders a number with a fraction
 	case mkBig:
 		return v.S
 	case mkFn:
@@ -121,6 +124,9 @@ func (v MV) toGo(flavour int) interface{} {
 			}
 		}
 		return dummyFn // a function of a map that is gone: still a function
+	case mkDec:
+		d, _ := new(decimal.Big).SetString(v.S)
+		return d
 	case mkBig:
 		if v.N == 1 { // handed over by the caller as a Go float64
 			f, _ := strconv.ParseFloat(v.S, 64)
@@ -175,6 +181,16 @@ func matches(v MV, got interface{}) bool {
 	case mkStr:
 		s, ok := got.(string)
 		return ok && s == v.S
+	case mkDec:
+		want, _ := new(decimal.Big).SetString(v.S)
+		switch x := got.(type) {
+		case *decimal.Big: // the same number AND the same number of decimals
+			return x != nil && x.Cmp(want) == 0 && x.Scale() == want.Scale()
+		case float64:
+			f, _ := want.Float64()
+			return x == f
+		}
+		return false
 	case mkBig:
 		want, _ := new(decimal.Big).SetString(v.S)
 		switch x := got.(type) {
@@ -268,7 +284,7 @@ func (n *MNode) text(cx int) string {
 			return strconv.FormatInt(n.V.N, 10)
 		case mkStr:
 			return "'" + n.V.S + "'"
-		case mkBig:
+		case mkBig, mkDec:
 			return n.V.S
 		}
 		return "null"
